@@ -169,7 +169,7 @@ pub fn gen_script(t: &mut Tape, req: &FReq, fail_rate: u64) -> Script {
     };
     if let FReq::GetConfig { size, .. } = req {
         // success with the right length, or an unusable result of another length
-        let n = match t.draw(5) {
+        let n = match if fail_rate == 0 { 4 } else { t.draw(5) } {
             0 => 0,
             1 => size.saturating_sub(1) as usize,
             2 => *size as usize + 1,
@@ -513,7 +513,7 @@ impl AnyHandler {
     }
 }
 
-fn serve_loop<S: vhost::vhost_user::VhostUserBackendReqHandler>(
+pub fn serve_loop_pub<S: vhost::vhost_user::VhostUserBackendReqHandler>(
     mut h: BackendReqHandler<S>,
     pol: Policy,
     results: Arc<Mutex<Vec<Result<(), String>>>>,
@@ -559,11 +559,11 @@ pub fn run_session(sim: &Sim, sess: &Session) -> SessionResult {
     let srv_task = match &handler {
         AnyHandler::Direct(d) => {
             let h = BackendReqHandler::from_stream(srv, d.clone());
-            sim.spawn("server", "server", move || serve_loop(h, pol, r2))
+            sim.spawn("server", "server", move || serve_loop_pub(h, pol, r2))
         }
         AnyHandler::Mutexed(m) => {
             let h = BackendReqHandler::from_stream(srv, m.clone());
-            sim.spawn("server", "server", move || serve_loop(h, pol, r2))
+            sim.spawn("server", "server", move || serve_loop_pub(h, pol, r2))
         }
     };
     // descriptors the peer lends to each request
